@@ -25,6 +25,7 @@ func main() {
 	only := flag.String("only", "", "re-derive one obligation key only")
 	replay := flag.String("replay", "", "replay file written by a previous run")
 	dbg := flag.String("debug-invalid", "", "comma-separated function names")
+	dbgErr := flag.String("debug-errabs", "", "comma-separated function names")
 	flag.Parse()
 	if os.Getenv("GOMAXPROCS") == "" {
 		// many OS threads make the loader spend its time in the kernel on this VM; 4 is the measured optimum
@@ -47,6 +48,15 @@ func main() {
 			os.Exit(2)
 		}
 		*only = k
+	}
+	if *dbgErr != "" {
+		pr, err := load.Load(*repo, load.Linux)
+		if err != nil {
+			fmt.Println(err)
+			os.Exit(2)
+		}
+		rules.DebugErrAbs(pr, strings.Split(*dbgErr, ",")...)
+		return
 	}
 	if *dbg != "" {
 		pr, err := load.Load(*repo, load.Linux)
